@@ -529,6 +529,13 @@ for _p in ("C11", "C12", "C13"):
                                 "shards": {"quick": 4, "thorough": 10}, "what": PROBE_WHAT}
 
 
+for _p in ("C11", "C12", "C13"):
+    TEXT[_p]["level_text"] += (" In addition the scope 'probe' of MC_Node - EVERY interleaving of one probe round and what follows "
+                               "it (pending timers and round-related datagrams; 3 free steps quick, 5 thorough) - is model-checked "
+                               "with the monitor and every one of its behaviours (5 888 quick) is replayed on the real code.")
+    TEXT[_p]["technique"] += " + exhaustive probe-round scope replayed on the code"
+
+
 # C04, second sentence ("any suspicion raised is refuted ... or absorbed by the indirect probe"): complete traces of
 # 3-member clusters with every datagram of the window dropped are validated per node (conformance) with the probe
 # monitor: a suspicion raised although an Ack / ForwardedAck of the round had been received is "not absorbed"
